@@ -1,4 +1,4 @@
-import CelmaVerif.Lemmas.LogFilesRun
+import CelmaVerif.Lemmas.LogFilesHist
 /-
   C15 — rolling log files keep the most recent messages, complete and in order.
   Property theorems only; helper lemmas are in Lemmas/LogFiles*.lean, the model (of the repaired
@@ -18,66 +18,101 @@ import CelmaVerif.Lemmas.LogFilesRun
   unchanged: a generation is started exactly when the message does not fit behind the current content
   (`C15_write_step`); an over-long message never fits, so it always starts a generation and the next message
   starts another one.
+
+  Layout (audit follow-up 2026-09-30).  Part 1 states everything for a history that starts from *any*
+  well-formed state (`…_from`): `WInv cfg w msgs` = a live policy object of configuration `cfg` on a directory
+  that satisfies the invariant, `msgs` being what was written before; `C15_invariant_fresh`,
+  `C15_invariant_of_directory` and `C15_invariant_from` say which states these are (the fresh directory, a policy
+  constructed on any pre-existing directory of the shape `DirOk`, and every state reached from one of them);
+  files with foreign names stay outside.  Part 2 are the same theorems for a fresh directory (`run cfg evs`),
+  corollaries of part 1 under their old names.  Part 3 are the history-level statements the audit asked for:
+  the most recent message is retained (`C15_latest_retained`, with the exact exception `C15_latest_lost_iff`),
+  one event drops at most the oldest generation (`C15_drop_at_most_oldest`), and how much is retained
+  (`C15_counted_window`, `C15_retained_size_bound`).
 -/
 namespace CelmaVerif.Props.C15
 open CelmaVerif CelmaVerif.LogFiles
 
-/-- No event of such a history throws, and the policy object stays alive: in particular the file opened
-    after a roll always passes its open check. -/
-theorem C15_never_throws (cfg : Cfg) (hlim : 1 ≤ cfg.limit) (evs : List Event)
-    (hadm : ∀ m ∈ messages evs, Writable cfg m) (e : Event)
+/-! ## Part 1: from any well-formed state -/
+
+/-- A fresh directory with a freshly constructed policy is a well-formed state (nothing written so far), and the
+    construction returns normally. -/
+theorem C15_invariant_fresh (cfg : Cfg) (hlim : 1 ≤ cfg.limit) :
+    (start cfg emptyFs).2 = .ok () ∧ WInv cfg (start cfg emptyFs).1 [] :=
+  start_empty_winv hlim
+
+/-- Constructing the policy on a pre-existing directory `gs` (generation files newest first, nothing else with a
+    generation name) of the shape `DirOk cfg gs msgs` — between one and `numGen` files, each within the limit or
+    one single message, each but the newest unable to take the first message of the next one, together a suffix
+    of `msgs` (all of `msgs` while fewer than `numGen` files exist), no newline inside the messages of the newest
+    file for the entry-counted policy — returns normally and gives a well-formed state.  So every `…_from`
+    theorem applies to histories that start on such a directory, not only on an empty one. -/
+theorem C15_invariant_of_directory (cfg : Cfg) (hlim : 1 ≤ cfg.limit) (gs : List File) (msgs : List Msg)
+    (hd : DirOk cfg gs msgs) :
+    (start cfg (dirOf gs)).2 = .ok () ∧ WInv cfg (start cfg (dirOf gs)).1 msgs :=
+  step_restart_winv hlim (winv_dirOf hd)
+
+/-- Well-formed states stay well-formed along every history of writable messages and restarts (`msgs` grows
+    by the messages of the history): the `…_from` theorems can be chained. -/
+theorem C15_invariant_from (cfg : Cfg) (hlim : 1 ≤ cfg.limit) (w : World) (msgs : List Msg)
+    (hW : WInv cfg w msgs) (evs : List Event) (hadm : ∀ m ∈ messages evs, Writable cfg m) :
+    WInv cfg (runFrom w evs) (msgs ++ messages evs) :=
+  runFrom_winv hlim evs w msgs hW hadm
+
+/-- From any well-formed state: no event of such a history throws, and the policy object stays alive. -/
+theorem C15_never_throws_from (cfg : Cfg) (hlim : 1 ≤ cfg.limit) (w : World) (msgs : List Msg)
+    (hW : WInv cfg w msgs) (evs : List Event) (hadm : ∀ m ∈ messages evs, Writable cfg m) (e : Event)
     (he : ∀ m, e = .write m → Writable cfg m) :
-    (start cfg emptyFs).2 = .ok () ∧ ((run cfg evs).step e).2 = .ok () ∧ (run cfg evs).pol.isSome := by
-  have hW := run_winv hlim evs hadm
-  refine ⟨(start_empty_winv hlim).1, ?_, ?_⟩
+    ((runFrom w evs).step e).2 = .ok () ∧ (runFrom w evs).pol.isSome := by
+  have hW' := runFrom_winv hlim evs w msgs hW hadm
+  refine ⟨?_, ?_⟩
   · cases e with
-    | write m => exact (step_write_winv hlim hW (he m rfl)).1
-    | restart => exact (step_restart_winv hlim hW).1
-  · obtain ⟨_, c, k, hp, _⟩ := hW
+    | write m => exact (step_write_winv hlim hW' (he m rfl)).1
+    | restart => exact (step_restart_winv hlim hW').1
+  · obtain ⟨_, c, k, hp, _⟩ := hW'
     rw [hp]; rfl
 
-/-- The generations read from oldest to newest are a suffix of the messages written, in the order
-    written: the most recent messages, none lost, duplicated, reordered or truncated in between. -/
-theorem C15_suffix (cfg : Cfg) (hlim : 1 ≤ cfg.limit) (evs : List Event)
-    (hadm : ∀ m ∈ messages evs, Writable cfg m) :
-    (generations (run cfg evs).fs (numGen cfg)).flatten <:+ messages evs := by
-  obtain ⟨_, c, k, _, hI⟩ := run_winv hlim evs hadm
+/-- From any well-formed state: the generations read oldest → newest are a suffix of everything written
+    (before and during the history), in the order written. -/
+theorem C15_suffix_from (cfg : Cfg) (hlim : 1 ≤ cfg.limit) (w : World) (msgs : List Msg)
+    (hW : WInv cfg w msgs) (evs : List Event) (hadm : ∀ m ∈ messages evs, Writable cfg m) :
+    (generations (runFrom w evs).fs (numGen cfg)).flatten <:+ msgs ++ messages evs := by
+  obtain ⟨_, c, k, _, hI⟩ := runFrom_winv hlim evs w msgs hW hadm
   rw [generations_flatten]
   exact hI.suf
 
-/-- Nothing at all is lost as long as fewer generation files exist than the configuration allows: messages
-    only ever disappear with the oldest generation when the maximum number of files is reached. -/
-theorem C15_no_loss_until_full (cfg : Cfg) (hlim : 1 ≤ cfg.limit) (evs : List Event)
-    (hadm : ∀ m ∈ messages evs, Writable cfg m)
-    (hfew : (generations (run cfg evs).fs (numGen cfg)).length < numGen cfg) :
-    (generations (run cfg evs).fs (numGen cfg)).flatten = messages evs := by
-  obtain ⟨_, c, k, _, hI⟩ := run_winv hlim evs hadm
+/-- From any well-formed state: nothing at all is lost as long as fewer generation files exist than the
+    configuration allows. -/
+theorem C15_no_loss_until_full_from (cfg : Cfg) (hlim : 1 ≤ cfg.limit) (w : World) (msgs : List Msg)
+    (hW : WInv cfg w msgs) (evs : List Event) (hadm : ∀ m ∈ messages evs, Writable cfg m)
+    (hfew : (generations (runFrom w evs).fs (numGen cfg)).length < numGen cfg) :
+    (generations (runFrom w evs).fs (numGen cfg)).flatten = msgs ++ messages evs := by
+  obtain ⟨_, c, k, _, hI⟩ := runFrom_winv hlim evs w msgs hW hadm
   rw [generations_length hI.ex hI.nex] at hfew
   rw [generations_flatten]
   have := hI.k_le
   exact hI.all (by omega)
 
-/-- No generation exceeds the configured limit (entries resp. bytes including the newlines), except a
-    generation that consists of exactly one message: `GenOk cfg g := size cfg g ≤ cfg.limit ∨ g.length = 1`. -/
-theorem C15_limit (cfg : Cfg) (hlim : 1 ≤ cfg.limit) (evs : List Event)
-    (hadm : ∀ m ∈ messages evs, Writable cfg m) :
-    ∀ g ∈ generations (run cfg evs).fs (numGen cfg), GenOk cfg g := by
-  obtain ⟨_, c, k, _, hI⟩ := run_winv hlim evs hadm
+/-- From any well-formed state: every generation is `GenOk` (within the limit, or exactly one message). -/
+theorem C15_limit_from (cfg : Cfg) (hlim : 1 ≤ cfg.limit) (w : World) (msgs : List Msg)
+    (hW : WInv cfg w msgs) (evs : List Event) (hadm : ∀ m ∈ messages evs, Writable cfg m) :
+    ∀ g ∈ generations (runFrom w evs).fs (numGen cfg), GenOk cfg g := by
+  obtain ⟨_, c, k, _, hI⟩ := runFrom_winv hlim evs w msgs hW hadm
   intro g hg
   obtain ⟨i, _, hi⟩ := mem_generations.mp hg
   exact hI.lim i g hi
 
-/-- The exception is used only where it cannot be avoided: a generation that exceeds the limit is one single
-    message that does not fit a generation on its own; put differently, a message that is longer than the limit
-    is alone in its generation, and every generation with two or more messages respects the limit. -/
-theorem C15_oversize_alone (cfg : Cfg) (hlim : 1 ≤ cfg.limit) (evs : List Event)
-    (hadm : ∀ m ∈ messages evs, Writable cfg m) :
-    ∀ g ∈ generations (run cfg evs).fs (numGen cfg),
+/-- From any well-formed state: a generation that exceeds the limit is one single message that does not fit a
+    generation on its own; a message longer than the limit is alone in its generation; every generation with two
+    or more messages respects the limit. -/
+theorem C15_oversize_alone_from (cfg : Cfg) (hlim : 1 ≤ cfg.limit) (w : World) (msgs : List Msg)
+    (hW : WInv cfg w msgs) (evs : List Event) (hadm : ∀ m ∈ messages evs, Writable cfg m) :
+    ∀ g ∈ generations (runFrom w evs).fs (numGen cfg),
       (cfg.limit < size cfg g → ∃ m, g = [m] ∧ cfg.limit < cost cfg m) ∧
       (∀ m ∈ g, cfg.limit < cost cfg m → g = [m]) ∧
       (2 ≤ g.length → size cfg g ≤ cfg.limit) := by
   intro g hg
-  have hok := C15_limit cfg hlim evs hadm g hg
+  have hok := C15_limit_from cfg hlim w msgs hW evs hadm g hg
   refine ⟨genOk_exceeds hok, ?_, ?_⟩
   · intro m hm hlong
     have := cost_le_size_of_mem cfg hm
@@ -90,28 +125,302 @@ theorem C15_oversize_alone (cfg : Cfg) (hlim : 1 ≤ cfg.limit) (evs : List Even
     · exact h
     · omega
 
+/-- From any well-formed state: a generation all of whose own messages fit a generation respects the limit. -/
+theorem C15_limit_fitting_from (cfg : Cfg) (hlim : 1 ≤ cfg.limit) (w : World) (msgs : List Msg)
+    (hW : WInv cfg w msgs) (evs : List Event) (hadm : ∀ m ∈ messages evs, Writable cfg m) :
+    ∀ g ∈ generations (runFrom w evs).fs (numGen cfg), (∀ m ∈ g, cost cfg m ≤ cfg.limit) → size cfg g ≤ cfg.limit := by
+  intro g hg hfit
+  exact genOk_fitting (C15_limit_from cfg hlim w msgs hW evs hadm g hg) hfit
+
+/-- From any well-formed state: when every message (written before or during the history) fits a generation on
+    its own, no generation exceeds the limit. -/
+theorem C15_limit_admissible_from (cfg : Cfg) (hlim : 1 ≤ cfg.limit) (w : World) (msgs : List Msg)
+    (hW : WInv cfg w msgs) (evs : List Event) (hadm : ∀ m ∈ msgs ++ messages evs, Admissible cfg m) :
+    ∀ g ∈ generations (runFrom w evs).fs (numGen cfg), size cfg g ≤ cfg.limit := by
+  have hw : ∀ m ∈ messages evs, Writable cfg m := fun m hm => (hadm m (List.mem_append_right _ hm)).2
+  intro g hg
+  apply C15_limit_fitting_from cfg hlim w msgs hW evs hw g hg
+  intro m hm
+  obtain ⟨i, hi, hgi⟩ := mem_generations.mp hg
+  have hmem : m ∈ retained (runFrom w evs).fs (numGen cfg) := mem_retained hi hgi hm
+  have hsuf := C15_suffix_from cfg hlim w msgs hW evs hw
+  rw [generations_flatten] at hsuf
+  exact (hadm m (hsuf.subset hmem)).1
+
+/-- From any well-formed state: neighbouring generations n+1 (`g`, older) and n (`g'`): `g` could not take the
+    first message of `g'` (no message at all when `g'` is still empty); generation numbers in use have no holes. -/
+theorem C15_roll_only_when_needed_from (cfg : Cfg) (hlim : 1 ≤ cfg.limit) (w : World) (msgs : List Msg)
+    (hW : WInv cfg w msgs) (evs : List Event) (hadm : ∀ m ∈ messages evs, Writable cfg m) :
+    (∀ n g g', (runFrom w evs).fs.get (n + 1) = some g → (runFrom w evs).fs.get n = some g' →
+      cfg.limit < size cfg g + nextCost cfg g') ∧
+    (∀ n, (runFrom w evs).fs.get (n + 1) ≠ none → (runFrom w evs).fs.get n ≠ none) := by
+  obtain ⟨_, c, k, _, hI⟩ := runFrom_winv hlim evs w msgs hW hadm
+  refine ⟨hI.adj, ?_⟩
+  intro n hn
+  apply hI.ex
+  by_cases h : n + 1 < k
+  · omega
+  · exact absurd (hI.nex (n + 1) (by omega)) hn
+
+/-- From any well-formed state: at most `numGen` generation files, none with a number outside 0 … numGen-1. -/
+theorem C15_generation_count_from (cfg : Cfg) (hlim : 1 ≤ cfg.limit) (w : World) (msgs : List Msg)
+    (hW : WInv cfg w msgs) (evs : List Event) (hadm : ∀ m ∈ messages evs, Writable cfg m) :
+    (generations (runFrom w evs).fs (numGen cfg)).length ≤ numGen cfg ∧
+    (∀ n, numGen cfg ≤ n → (runFrom w evs).fs.get n = none) ∧
+    (1 ≤ cfg.maxGen → numGen cfg = cfg.maxGen) := by
+  obtain ⟨_, c, k, _, hI⟩ := runFrom_winv hlim evs w msgs hW hadm
+  refine ⟨generations_length_le _ _, ?_, ?_⟩
+  · intro n hn
+    have := hI.k_le
+    exact hI.nex n (by omega)
+  · intro h; unfold numGen; split <;> omega
+
+/-- From any well-formed state, the step function of a write: `m` is appended to generation 0 and nothing else
+    changes iff it fits (size + cost ≤ limit); otherwise every generation moves up by one number (the one that
+    would get number `numGen` is dropped) and `m` starts the new generation 0. -/
+theorem C15_write_step_from (cfg : Cfg) (hlim : 1 ≤ cfg.limit) (w : World) (msgs : List Msg)
+    (hW : WInv cfg w msgs) (evs : List Event) (hadm : ∀ m ∈ messages evs, Writable cfg m) (m : Msg) :
+    ∃ f, (runFrom w evs).fs.get 0 = some f ∧
+      (size cfg f + cost cfg m ≤ cfg.limit →
+        ∀ i, (runFrom w (evs ++ [.write m])).fs.get i = if i = 0 then some (f ++ [m]) else (runFrom w evs).fs.get i) ∧
+      (cfg.limit < size cfg f + cost cfg m →
+        ∀ i, (runFrom w (evs ++ [.write m])).fs.get i =
+          if i = 0 then some [m] else if i < numGen cfg then (runFrom w evs).fs.get (i - 1) else none) := by
+  have hW' := runFrom_winv hlim evs w msgs hW hadm
+  obtain ⟨_, c, k, _, hI⟩ := hW'
+  obtain ⟨f, h0, _, _⟩ := hI.cur
+  rw [runFrom_append]
+  exact ⟨f, h0, step_write_fs m hlim (runFrom_winv hlim evs w msgs hW hadm) h0⟩
+
+/-- From any well-formed state, the step function of a restart: every file stays as it is, except when
+    generation 0 can take no further message (size ≥ limit): then the generations are rolled and generation 0
+    starts empty. -/
+theorem C15_restart_step_from (cfg : Cfg) (hlim : 1 ≤ cfg.limit) (w : World) (msgs : List Msg)
+    (hW : WInv cfg w msgs) (evs : List Event) (hadm : ∀ m ∈ messages evs, Writable cfg m) :
+    ∃ f, (runFrom w evs).fs.get 0 = some f ∧
+      (size cfg f < cfg.limit → ∀ i, (runFrom w (evs ++ [.restart])).fs.get i = (runFrom w evs).fs.get i) ∧
+      (cfg.limit ≤ size cfg f →
+        ∀ i, (runFrom w (evs ++ [.restart])).fs.get i =
+          if i = 0 then some [] else if i < numGen cfg then (runFrom w evs).fs.get (i - 1) else none) := by
+  have hW' := runFrom_winv hlim evs w msgs hW hadm
+  obtain ⟨_, c, k, _, hI⟩ := hW'
+  obtain ⟨f, h0, _, _⟩ := hI.cur
+  rw [runFrom_append]
+  exact ⟨f, h0, step_restart_fs hlim (runFrom_winv hlim evs w msgs hW hadm) h0⟩
+
+/-- **The most recent message is retained** (from any well-formed state).  After a history in which at least one
+    message was ever written, the last message written is the last message of the generations read oldest →
+    newest — so what is retained is never empty — provided at least two generation files are configured or
+    generation 0 is not empty (`C15_latest_lost_iff_from`: this side condition is exact).  More precisely: a
+    non-empty generation 0 ends with the most recent message; when generation 0 is empty (a restart found its
+    predecessor unable to take any message and started a new generation), generation 1 is not empty and ends
+    with it.  Over-long messages need no side condition. -/
+theorem C15_latest_retained_from (cfg : Cfg) (hlim : 1 ≤ cfg.limit) (w : World) (msgs : List Msg)
+    (hW : WInv cfg w msgs) (evs : List Event) (hadm : ∀ m ∈ messages evs, Writable cfg m)
+    (hne : msgs ++ messages evs ≠ [])
+    (h2 : 2 ≤ numGen cfg ∨ (runFrom w evs).fs.get 0 ≠ some []) :
+    (generations (runFrom w evs).fs (numGen cfg)).flatten.getLast? = (msgs ++ messages evs).getLast? ∧
+    (generations (runFrom w evs).fs (numGen cfg)).flatten ≠ [] ∧
+    (∀ f, (runFrom w evs).fs.get 0 = some f → f ≠ [] → f.getLast? = (msgs ++ messages evs).getLast?) ∧
+    (∀ g, (runFrom w evs).fs.get 0 = some [] → (runFrom w evs).fs.get 1 = some g →
+      g ≠ [] ∧ g.getLast? = (msgs ++ messages evs).getLast?) := by
+  obtain ⟨_, c, k, _, hI⟩ := runFrom_winv hlim evs w msgs hW hadm
+  rw [generations_flatten]
+  exact ⟨inv_latest hlim hI hne h2, inv_retained_ne_nil hlim hI hne h2,
+    fun f h0 hf => inv_latest_cur hI h0 hf, fun g h0 h1 => inv_latest_prev hlim hI h0 h1⟩
+
+/-- The side condition of `C15_latest_retained_from` is exact: once a message was written, the most recent
+    message is *not* the last retained one iff a single generation file is configured (`max_gen ≤ 1`) and it is
+    empty — the state a restart leaves behind when it finds the only file unable to take another message (it
+    truncates it, as every roll-over does with a single file); then nothing at all is retained. -/
+theorem C15_latest_lost_iff_from (cfg : Cfg) (hlim : 1 ≤ cfg.limit) (w : World) (msgs : List Msg)
+    (hW : WInv cfg w msgs) (evs : List Event) (hadm : ∀ m ∈ messages evs, Writable cfg m)
+    (hne : msgs ++ messages evs ≠ []) :
+    ((generations (runFrom w evs).fs (numGen cfg)).flatten.getLast? ≠ (msgs ++ messages evs).getLast? ↔
+      numGen cfg = 1 ∧ (runFrom w evs).fs.get 0 = some []) ∧
+    (numGen cfg = 1 → (runFrom w evs).fs.get 0 = some [] →
+      (generations (runFrom w evs).fs (numGen cfg)).flatten = []) := by
+  have hK := numGen_pos cfg
+  have hempty : numGen cfg = 1 → (runFrom w evs).fs.get 0 = some [] →
+      (generations (runFrom w evs).fs (numGen cfg)).flatten = [] := by
+    intro h1 h0
+    rw [generations_flatten, h1]
+    simp [retained, h0]
+  refine ⟨⟨?_, ?_⟩, hempty⟩
+  · intro hlost
+    by_cases hc : numGen cfg = 1 ∧ (runFrom w evs).fs.get 0 = some []
+    · exact hc
+    · exfalso
+      apply hlost
+      refine (C15_latest_retained_from cfg hlim w msgs hW evs hadm hne ?_).1
+      by_cases h2 : 2 ≤ numGen cfg
+      · exact Or.inl h2
+      · right; intro h0; exact hc ⟨by omega, h0⟩
+  · intro ⟨h1, h0⟩
+    rw [hempty h1 h0]
+    cases hl : (msgs ++ messages evs).getLast? with
+    | none => exact absurd (List.getLast?_eq_none_iff.mp hl) hne
+    | some x => simp
+
+/-- **One event drops at most the oldest generation** (from any well-formed state).  Let `oldest` be the content
+    of generation number `numGen-1` (nothing when that file does not exist — in particular whenever fewer than
+    `numGen` files exist) and `rest` the younger generations, so that the retained text is `oldest ++ rest`.
+    One further event `e` (`messages [e]` is `[m]` for `write m`, `[]` for a restart; `nextCost` of it is the cost
+    of `m`, resp. 1 = the cost of the cheapest message) leaves `oldest ++ rest ++ messages [e]` when no roll-over
+    is needed (`size f + nextCost … ≤ limit`), and exactly `rest ++ messages [e]` otherwise.  So the retained text
+    afterwards is the text before, minus at most the whole oldest generation, plus the new message; something
+    is dropped iff a roll-over happens (message does not fit / restart on a generation 0 that can take no
+    message) while generation `numGen-1` exists and is not empty. -/
+theorem C15_drop_at_most_oldest_from (cfg : Cfg) (hlim : 1 ≤ cfg.limit) (w : World) (msgs : List Msg)
+    (hW : WInv cfg w msgs) (evs : List Event) (hadm : ∀ m ∈ messages evs, Writable cfg m) (e : Event) :
+    ∃ f oldest rest,
+      (runFrom w evs).fs.get 0 = some f ∧
+      oldest = ((runFrom w evs).fs.get (numGen cfg - 1)).getD [] ∧
+      (generations (runFrom w evs).fs (numGen cfg)).flatten = oldest ++ rest ∧
+      ((generations (runFrom w evs).fs (numGen cfg)).length < numGen cfg → oldest = []) ∧
+      (size cfg f + nextCost cfg (messages [e]) ≤ cfg.limit →
+        (generations (runFrom w (evs ++ [e])).fs (numGen cfg)).flatten = oldest ++ rest ++ messages [e]) ∧
+      (cfg.limit < size cfg f + nextCost cfg (messages [e]) →
+        (generations (runFrom w (evs ++ [e])).fs (numGen cfg)).flatten = rest ++ messages [e]) ∧
+      ((generations (runFrom w (evs ++ [e])).fs (numGen cfg)).flatten = oldest ++ rest ++ messages [e] ↔
+        (size cfg f + nextCost cfg (messages [e]) ≤ cfg.limit ∨ oldest = [])) := by
+  have hW' := runFrom_winv hlim evs w msgs hW hadm
+  obtain ⟨_, c, k, _, hI⟩ := hW'
+  obtain ⟨f, h0, _, _⟩ := hI.cur
+  obtain ⟨hfit, hroll⟩ := step_retained e hlim (runFrom_winv hlim evs w msgs hW hadm) h0
+  have hsplit := retained_split cfg (runFrom w evs).fs
+  have hK := numGen_pos cfg
+  refine ⟨f, _, retained (runFrom w evs).fs (numGen cfg - 1), h0, rfl, ?_, ?_, ?_, ?_, ?_⟩
+  · rw [generations_flatten]; exact hsplit
+  · intro hfew
+    rw [generations_length hI.ex hI.nex] at hfew
+    have := hI.k_le
+    rw [hI.nex (numGen cfg - 1) (by omega)]; rfl
+  · intro h
+    rw [runFrom_append, generations_flatten, hfit h, hsplit]
+  · intro h
+    rw [runFrom_append, generations_flatten, hroll h]
+  · rw [runFrom_append, generations_flatten]
+    constructor
+    · intro heq
+      by_cases h : size cfg f + nextCost cfg (messages [e]) ≤ cfg.limit
+      · exact Or.inl h
+      · right
+        rw [hroll (by omega)] at heq
+        have hl := congrArg List.length heq
+        simp only [List.length_append] at hl
+        exact List.eq_nil_of_length_eq_zero (by omega)
+    · intro h
+      by_cases hf : size cfg f + nextCost cfg (messages [e]) ≤ cfg.limit
+      · rw [hfit hf, hsplit]
+      · rcases h with h | h
+        · exact absurd h hf
+        · rw [hroll (by omega), h]; rfl
+
+/-- **How much is retained, entry-counted files** (from any well-formed state): exactly the last
+    `(numGen-1) * limit + n0` messages of everything written (all of them when fewer were written), where `n0 ≤
+    limit` is the number of messages in generation 0.  In particular at least the last `(numGen-1) * limit`
+    messages are always retained, and at least the last `(numGen-1) * limit + 1` when generation 0 is not empty
+    (e.g. directly after a write). -/
+theorem C15_counted_window_from (cfg : Cfg) (hlim : 1 ≤ cfg.limit) (hk : cfg.kind = .counted) (w : World)
+    (msgs : List Msg) (hW : WInv cfg w msgs) (evs : List Event) (hadm : ∀ m ∈ messages evs, Writable cfg m) :
+    ∃ f, (runFrom w evs).fs.get 0 = some f ∧ f.length ≤ cfg.limit ∧
+      (generations (runFrom w evs).fs (numGen cfg)).flatten.length =
+        min (msgs ++ messages evs).length ((numGen cfg - 1) * cfg.limit + f.length) ∧
+      (generations (runFrom w evs).fs (numGen cfg)).flatten =
+        (msgs ++ messages evs).drop ((msgs ++ messages evs).length - ((numGen cfg - 1) * cfg.limit + f.length)) := by
+  obtain ⟨_, c, k, _, hI⟩ := runFrom_winv hlim evs w msgs hW hadm
+  obtain ⟨f, h0, _, _⟩ := hI.cur
+  have hcount := inv_counted_count hlim hk hI h0
+  have hf : f.length ≤ cfg.limit := by
+    have := hI.lim 0 f h0
+    unfold GenOk at this
+    simp only [size, hk] at this
+    omega
+  refine ⟨f, h0, hf, ?_, ?_⟩
+  · rw [generations_flatten]; exact hcount
+  · rw [generations_flatten]
+    have := List.suffix_iff_eq_drop.mp hI.suf
+    rw [hcount] at this
+    rw [this]
+    congr 1
+    omega
+
+/-- **How much is retained, both kinds** (from any well-formed state), in the unit of the limit (entries resp.
+    bytes including newlines): when every message costs at most `cmax`, either everything written is retained or
+    the retained generations hold at least `(numGen-1) * (limit + 1 - cmax) + size of generation 0` — every
+    generation but the newest was filled to within less than one (largest) message of the limit.  For the
+    entry-counted policy (`cmax = 1`) this is the lower half of `C15_counted_window_from`. -/
+theorem C15_retained_size_bound_from (cfg : Cfg) (hlim : 1 ≤ cfg.limit) (w : World) (msgs : List Msg)
+    (hW : WInv cfg w msgs) (evs : List Event) (hadm : ∀ m ∈ messages evs, Writable cfg m)
+    (cmax : Nat) (hc1 : 1 ≤ cmax) (hcost : ∀ m ∈ msgs ++ messages evs, cost cfg m ≤ cmax) :
+    ∃ f, (runFrom w evs).fs.get 0 = some f ∧
+      ((generations (runFrom w evs).fs (numGen cfg)).flatten = msgs ++ messages evs ∨
+       (numGen cfg - 1) * (cfg.limit + 1 - cmax) + size cfg f ≤
+         size cfg (generations (runFrom w evs).fs (numGen cfg)).flatten) := by
+  obtain ⟨_, c, k, _, hI⟩ := runFrom_winv hlim evs w msgs hW hadm
+  obtain ⟨f, h0, _, _⟩ := hI.cur
+  refine ⟨f, h0, ?_⟩
+  rw [generations_flatten]
+  exact inv_size_bound cmax hc1 hI (fun m hm => hcost m (hI.suf.subset hm)) h0
+
+/-! ## Part 2: from a fresh directory (`run cfg evs`), corollaries of part 1 -/
+
+/-- No event of such a history throws, and the policy object stays alive: in particular the file opened
+    after a roll always passes its open check. -/
+theorem C15_never_throws (cfg : Cfg) (hlim : 1 ≤ cfg.limit) (evs : List Event)
+    (hadm : ∀ m ∈ messages evs, Writable cfg m) (e : Event)
+    (he : ∀ m, e = .write m → Writable cfg m) :
+    (start cfg emptyFs).2 = .ok () ∧ ((run cfg evs).step e).2 = .ok () ∧ (run cfg evs).pol.isSome :=
+  ⟨(C15_invariant_fresh cfg hlim).1,
+   C15_never_throws_from cfg hlim _ [] (C15_invariant_fresh cfg hlim).2 evs hadm e he⟩
+
+/-- The generations read from oldest to newest are a suffix of the messages written, in the order
+    written: the most recent messages, none lost, duplicated, reordered or truncated in between. -/
+theorem C15_suffix (cfg : Cfg) (hlim : 1 ≤ cfg.limit) (evs : List Event)
+    (hadm : ∀ m ∈ messages evs, Writable cfg m) :
+    (generations (run cfg evs).fs (numGen cfg)).flatten <:+ messages evs :=
+  C15_suffix_from cfg hlim _ [] (C15_invariant_fresh cfg hlim).2 evs hadm
+
+/-- Nothing at all is lost as long as fewer generation files exist than the configuration allows: messages
+    only ever disappear with the oldest generation when the maximum number of files is reached. -/
+theorem C15_no_loss_until_full (cfg : Cfg) (hlim : 1 ≤ cfg.limit) (evs : List Event)
+    (hadm : ∀ m ∈ messages evs, Writable cfg m)
+    (hfew : (generations (run cfg evs).fs (numGen cfg)).length < numGen cfg) :
+    (generations (run cfg evs).fs (numGen cfg)).flatten = messages evs :=
+  C15_no_loss_until_full_from cfg hlim _ [] (C15_invariant_fresh cfg hlim).2 evs hadm hfew
+
+/-- No generation exceeds the configured limit (entries resp. bytes including the newlines), except a
+    generation that consists of exactly one message: `GenOk cfg g := size cfg g ≤ cfg.limit ∨ g.length = 1`. -/
+theorem C15_limit (cfg : Cfg) (hlim : 1 ≤ cfg.limit) (evs : List Event)
+    (hadm : ∀ m ∈ messages evs, Writable cfg m) :
+    ∀ g ∈ generations (run cfg evs).fs (numGen cfg), GenOk cfg g :=
+  C15_limit_from cfg hlim _ [] (C15_invariant_fresh cfg hlim).2 evs hadm
+
+/-- The exception is used only where it cannot be avoided: a generation that exceeds the limit is one single
+    message that does not fit a generation on its own; put differently, a message that is longer than the limit
+    is alone in its generation, and every generation with two or more messages respects the limit. -/
+theorem C15_oversize_alone (cfg : Cfg) (hlim : 1 ≤ cfg.limit) (evs : List Event)
+    (hadm : ∀ m ∈ messages evs, Writable cfg m) :
+    ∀ g ∈ generations (run cfg evs).fs (numGen cfg),
+      (cfg.limit < size cfg g → ∃ m, g = [m] ∧ cfg.limit < cost cfg m) ∧
+      (∀ m ∈ g, cfg.limit < cost cfg m → g = [m]) ∧
+      (2 ≤ g.length → size cfg g ≤ cfg.limit) :=
+  C15_oversize_alone_from cfg hlim _ [] (C15_invariant_fresh cfg hlim).2 evs hadm
+
 /-- A generation all of whose own messages fit a generation respects the limit — whatever else the history
     contained. -/
 theorem C15_limit_fitting (cfg : Cfg) (hlim : 1 ≤ cfg.limit) (evs : List Event)
     (hadm : ∀ m ∈ messages evs, Writable cfg m) :
-    ∀ g ∈ generations (run cfg evs).fs (numGen cfg), (∀ m ∈ g, cost cfg m ≤ cfg.limit) → size cfg g ≤ cfg.limit := by
-  intro g hg hfit
-  exact genOk_fitting (C15_limit cfg hlim evs hadm g hg) hfit
+    ∀ g ∈ generations (run cfg evs).fs (numGen cfg), (∀ m ∈ g, cost cfg m ≤ cfg.limit) → size cfg g ≤ cfg.limit :=
+  C15_limit_fitting_from cfg hlim _ [] (C15_invariant_fresh cfg hlim).2 evs hadm
 
 /-- Corollary (the statement for histories without over-long messages): when every message of the history
     fits a generation on its own, no generation exceeds the limit. -/
 theorem C15_limit_admissible (cfg : Cfg) (hlim : 1 ≤ cfg.limit) (evs : List Event)
     (hadm : ∀ m ∈ messages evs, Admissible cfg m) :
-    ∀ g ∈ generations (run cfg evs).fs (numGen cfg), size cfg g ≤ cfg.limit := by
-  have hw : ∀ m ∈ messages evs, Writable cfg m := fun m hm => (hadm m hm).2
-  intro g hg
-  apply C15_limit_fitting cfg hlim evs hw g hg
-  intro m hm
-  obtain ⟨i, hi, hgi⟩ := mem_generations.mp hg
-  have hmem : m ∈ retained (run cfg evs).fs (numGen cfg) := mem_retained hi hgi hm
-  have hsuf := C15_suffix cfg hlim evs hw
-  rw [generations_flatten] at hsuf
-  exact (hadm m (hsuf.subset hmem)).1
+    ∀ g ∈ generations (run cfg evs).fs (numGen cfg), size cfg g ≤ cfg.limit :=
+  C15_limit_admissible_from cfg hlim _ [] (C15_invariant_fresh cfg hlim).2 evs hadm
 
 /-- A new generation is started only when the next message would exceed the limit: for a generation `g`
     (number n+1) and the next newer one `g'` (number n), `g` could not have taken the first message of `g'`;
@@ -123,14 +432,8 @@ theorem C15_roll_only_when_needed (cfg : Cfg) (hlim : 1 ≤ cfg.limit) (evs : Li
     (hadm : ∀ m ∈ messages evs, Writable cfg m) :
     (∀ n g g', (run cfg evs).fs.get (n + 1) = some g → (run cfg evs).fs.get n = some g' →
       cfg.limit < size cfg g + nextCost cfg g') ∧
-    (∀ n, (run cfg evs).fs.get (n + 1) ≠ none → (run cfg evs).fs.get n ≠ none) := by
-  obtain ⟨_, c, k, _, hI⟩ := run_winv hlim evs hadm
-  refine ⟨hI.adj, ?_⟩
-  intro n hn
-  apply hI.ex
-  by_cases h : n + 1 < k
-  · omega
-  · exact absurd (hI.nex (n + 1) (by omega)) hn
+    (∀ n, (run cfg evs).fs.get (n + 1) ≠ none → (run cfg evs).fs.get n ≠ none) :=
+  C15_roll_only_when_needed_from cfg hlim _ [] (C15_invariant_fresh cfg hlim).2 evs hadm
 
 /-- At most `max_gen` generation files exist (one when `max_gen` < 1), and none has a number outside
     0 … max_gen-1. -/
@@ -138,13 +441,8 @@ theorem C15_generation_count (cfg : Cfg) (hlim : 1 ≤ cfg.limit) (evs : List Ev
     (hadm : ∀ m ∈ messages evs, Writable cfg m) :
     (generations (run cfg evs).fs (numGen cfg)).length ≤ numGen cfg ∧
     (∀ n, numGen cfg ≤ n → (run cfg evs).fs.get n = none) ∧
-    (1 ≤ cfg.maxGen → numGen cfg = cfg.maxGen) := by
-  obtain ⟨_, c, k, _, hI⟩ := run_winv hlim evs hadm
-  refine ⟨generations_length_le _ _, ?_, ?_⟩
-  · intro n hn
-    have := hI.k_le
-    exact hI.nex n (by omega)
-  · intro h; unfold numGen; split <;> omega
+    (1 ≤ cfg.maxGen → numGen cfg = cfg.maxGen) :=
+  C15_generation_count_from cfg hlim _ [] (C15_invariant_fresh cfg hlim).2 evs hadm
 
 /-- The step function (what makes the property functional): writing `m` after any such history appends it
     to generation 0 and touches nothing else when it fits, i.e. size + cost ≤ limit; otherwise — and only
@@ -158,32 +456,125 @@ theorem C15_write_step (cfg : Cfg) (hlim : 1 ≤ cfg.limit) (evs : List Event)
         ∀ i, (run cfg (evs ++ [.write m])).fs.get i = if i = 0 then some (f ++ [m]) else (run cfg evs).fs.get i) ∧
       (cfg.limit < size cfg f + cost cfg m →
         ∀ i, (run cfg (evs ++ [.write m])).fs.get i =
-          if i = 0 then some [m] else if i < numGen cfg then (run cfg evs).fs.get (i - 1) else none) := by
-  have hW := run_winv hlim evs hadm
-  obtain ⟨_, c, k, _, hI⟩ := run_winv hlim evs hadm
-  obtain ⟨f, h0, _, _⟩ := hI.cur
-  have e : run cfg (evs ++ [.write m]) = ((run cfg evs).step (.write m)).1 := by
-    rw [run_eq, run_eq, runFrom_append]
-  rw [e]
-  exact ⟨f, h0, step_write_fs m hlim hW h0⟩
+          if i = 0 then some [m] else if i < numGen cfg then (run cfg evs).fs.get (i - 1) else none) :=
+  C15_write_step_from cfg hlim _ [] (C15_invariant_fresh cfg hlim).2 evs hadm m
 
 /-- Restarting the process leaves every file as it is, except when generation 0 is exactly full (no
     message whatsoever fits any more) or holds one over-long message (the same: no message fits behind it):
-    then the generations are rolled and generation 0 starts empty. -/
+    then the generations are rolled and generation 0 starts empty.  (With the maximum number of files in use
+    this drops the oldest generation although no message arrives: the property's statement leaves open whether
+    that happens at the restart or at the next write, see `C15_drop_at_most_oldest`.) -/
 theorem C15_restart_step (cfg : Cfg) (hlim : 1 ≤ cfg.limit) (evs : List Event)
     (hadm : ∀ m ∈ messages evs, Writable cfg m) :
     ∃ f, (run cfg evs).fs.get 0 = some f ∧
       (size cfg f < cfg.limit → ∀ i, (run cfg (evs ++ [.restart])).fs.get i = (run cfg evs).fs.get i) ∧
       (cfg.limit ≤ size cfg f →
         ∀ i, (run cfg (evs ++ [.restart])).fs.get i =
-          if i = 0 then some [] else if i < numGen cfg then (run cfg evs).fs.get (i - 1) else none) := by
-  have hW := run_winv hlim evs hadm
-  obtain ⟨_, c, k, _, hI⟩ := run_winv hlim evs hadm
-  obtain ⟨f, h0, _, _⟩ := hI.cur
-  have e : run cfg (evs ++ [.restart]) = ((run cfg evs).step .restart).1 := by
-    rw [run_eq, run_eq, runFrom_append]
-  rw [e]
-  exact ⟨f, h0, step_restart_fs hlim hW h0⟩
+          if i = 0 then some [] else if i < numGen cfg then (run cfg evs).fs.get (i - 1) else none) :=
+  C15_restart_step_from cfg hlim _ [] (C15_invariant_fresh cfg hlim).2 evs hadm
+
+/-! ## Part 3: history-level statements from a fresh directory -/
+
+/-- **The most recent message is retained.**  After any history on a fresh directory that contains at least one
+    message, the last message written is the last message of the generations read oldest → newest (so what is
+    retained is not empty), provided at least two generation files are configured or generation 0 is not empty;
+    a non-empty generation 0 ends with it, and when generation 0 is empty generation 1 is not and ends with it.
+    The side condition is exact (`C15_latest_lost_iff`); messages longer than a generation need none. -/
+theorem C15_latest_retained (cfg : Cfg) (hlim : 1 ≤ cfg.limit) (evs : List Event)
+    (hadm : ∀ m ∈ messages evs, Writable cfg m) (hne : messages evs ≠ [])
+    (h2 : 2 ≤ numGen cfg ∨ (run cfg evs).fs.get 0 ≠ some []) :
+    (generations (run cfg evs).fs (numGen cfg)).flatten.getLast? = (messages evs).getLast? ∧
+    (generations (run cfg evs).fs (numGen cfg)).flatten ≠ [] ∧
+    (∀ f, (run cfg evs).fs.get 0 = some f → f ≠ [] → f.getLast? = (messages evs).getLast?) ∧
+    (∀ g, (run cfg evs).fs.get 0 = some [] → (run cfg evs).fs.get 1 = some g →
+      g ≠ [] ∧ g.getLast? = (messages evs).getLast?) :=
+  C15_latest_retained_from cfg hlim _ [] (C15_invariant_fresh cfg hlim).2 evs hadm hne h2
+
+/-- Directly after a write — whatever the number of generation files, whatever the length of the message — the
+    message just written is the last line of generation 0. -/
+theorem C15_latest_retained_after_write (cfg : Cfg) (hlim : 1 ≤ cfg.limit) (evs : List Event)
+    (hadm : ∀ m ∈ messages evs, Writable cfg m) (m : Msg) :
+    ∃ f, (run cfg (evs ++ [.write m])).fs.get 0 = some f ∧ f.getLast? = some m ∧
+      (generations (run cfg (evs ++ [.write m])).fs (numGen cfg)).flatten.getLast? = some m := by
+  obtain ⟨f, _, hfit, hroll⟩ := C15_write_step cfg hlim evs hadm m
+  have hK := numGen_pos cfg
+  have key : ∀ f', (run cfg (evs ++ [.write m])).fs.get 0 = some f' → f'.getLast? = some m →
+      (generations (run cfg (evs ++ [.write m])).fs (numGen cfg)).flatten.getLast? = some m := by
+    intro f' h0 hl
+    rw [generations_flatten]
+    obtain ⟨t, ht⟩ := retained_ends0 (run cfg (evs ++ [.write m])).fs (numGen cfg - 1)
+    have e : numGen cfg - 1 + 1 = numGen cfg := by omega
+    rw [e, h0] at ht
+    rw [ht, List.getLast?_append, Option.getD_some, hl]; rfl
+  by_cases h : size cfg f + cost cfg m ≤ cfg.limit
+  · have h0 := hfit h 0
+    simp only [if_true] at h0
+    exact ⟨_, h0, by simp, key _ h0 (by simp)⟩
+  · have h0 := hroll (by omega) 0
+    simp only [if_true] at h0
+    exact ⟨_, h0, by simp, key _ h0 (by simp)⟩
+
+/-- The side condition of `C15_latest_retained` is exact: once a message was written, the most recent message is
+    *not* the last retained one iff a single generation file is configured (`max_gen ≤ 1`) and it is empty; then
+    nothing at all is retained.  (By `C15_restart_step` / `C15_write_step` this state arises only when a restart
+    finds the only file unable to take another message and truncates it, as every roll-over does with a single
+    file; the next write ends it.) -/
+theorem C15_latest_lost_iff (cfg : Cfg) (hlim : 1 ≤ cfg.limit) (evs : List Event)
+    (hadm : ∀ m ∈ messages evs, Writable cfg m) (hne : messages evs ≠ []) :
+    ((generations (run cfg evs).fs (numGen cfg)).flatten.getLast? ≠ (messages evs).getLast? ↔
+      numGen cfg = 1 ∧ (run cfg evs).fs.get 0 = some []) ∧
+    (numGen cfg = 1 → (run cfg evs).fs.get 0 = some [] →
+      (generations (run cfg evs).fs (numGen cfg)).flatten = []) :=
+  C15_latest_lost_iff_from cfg hlim _ [] (C15_invariant_fresh cfg hlim).2 evs hadm hne
+
+/-- **One event drops at most the oldest generation.**  With `oldest` = the content of generation number
+    `numGen-1` (nothing when that file does not exist, in particular whenever fewer than `numGen` files exist) and
+    `rest` = the younger generations, the retained text before the event is `oldest ++ rest`; after one further
+    event `e` (`messages [e]` = `[m]` for `write m`, `[]` for a restart; `nextCost` of it = cost of `m`, resp. 1)
+    it is `oldest ++ rest ++ messages [e]` when `size (generation 0) + nextCost … ≤ limit` and exactly
+    `rest ++ messages [e]` otherwise; nothing is dropped iff no roll-over happens or `oldest` is empty.
+    A restart on a generation 0 that can take no message (`limit ≤ size`) is such a roll-over: with the maximum
+    number of files in use it drops the oldest generation although no message arrives (left open by the
+    property's statement: the next write would drop it otherwise). -/
+theorem C15_drop_at_most_oldest (cfg : Cfg) (hlim : 1 ≤ cfg.limit) (evs : List Event)
+    (hadm : ∀ m ∈ messages evs, Writable cfg m) (e : Event) :
+    ∃ f oldest rest,
+      (run cfg evs).fs.get 0 = some f ∧
+      oldest = ((run cfg evs).fs.get (numGen cfg - 1)).getD [] ∧
+      (generations (run cfg evs).fs (numGen cfg)).flatten = oldest ++ rest ∧
+      ((generations (run cfg evs).fs (numGen cfg)).length < numGen cfg → oldest = []) ∧
+      (size cfg f + nextCost cfg (messages [e]) ≤ cfg.limit →
+        (generations (run cfg (evs ++ [e])).fs (numGen cfg)).flatten = oldest ++ rest ++ messages [e]) ∧
+      (cfg.limit < size cfg f + nextCost cfg (messages [e]) →
+        (generations (run cfg (evs ++ [e])).fs (numGen cfg)).flatten = rest ++ messages [e]) ∧
+      ((generations (run cfg (evs ++ [e])).fs (numGen cfg)).flatten = oldest ++ rest ++ messages [e] ↔
+        (size cfg f + nextCost cfg (messages [e]) ≤ cfg.limit ∨ oldest = [])) :=
+  C15_drop_at_most_oldest_from cfg hlim _ [] (C15_invariant_fresh cfg hlim).2 evs hadm e
+
+/-- **How much is retained, entry-counted files**: after any history on a fresh directory exactly the last
+    `(numGen-1) * limit + n0` messages written are retained (all of them when fewer were written), `n0 ≤ limit`
+    being the number of messages in generation 0: always at least the last `(numGen-1) * limit`, and at least
+    the last `(numGen-1) * limit + 1` whenever generation 0 is not empty. -/
+theorem C15_counted_window (cfg : Cfg) (hlim : 1 ≤ cfg.limit) (hk : cfg.kind = .counted) (evs : List Event)
+    (hadm : ∀ m ∈ messages evs, Writable cfg m) :
+    ∃ f, (run cfg evs).fs.get 0 = some f ∧ f.length ≤ cfg.limit ∧
+      (generations (run cfg evs).fs (numGen cfg)).flatten.length =
+        min (messages evs).length ((numGen cfg - 1) * cfg.limit + f.length) ∧
+      (generations (run cfg evs).fs (numGen cfg)).flatten =
+        (messages evs).drop ((messages evs).length - ((numGen cfg - 1) * cfg.limit + f.length)) :=
+  C15_counted_window_from cfg hlim hk _ [] (C15_invariant_fresh cfg hlim).2 evs hadm
+
+/-- **How much is retained, both kinds**, in the unit of the limit (entries resp. bytes including newlines): when
+    every message of the history costs at most `cmax`, either every message is retained or the retained
+    generations hold at least `(numGen-1) * (limit + 1 - cmax) + size of generation 0`. -/
+theorem C15_retained_size_bound (cfg : Cfg) (hlim : 1 ≤ cfg.limit) (evs : List Event)
+    (hadm : ∀ m ∈ messages evs, Writable cfg m)
+    (cmax : Nat) (hc1 : 1 ≤ cmax) (hcost : ∀ m ∈ messages evs, cost cfg m ≤ cmax) :
+    ∃ f, (run cfg evs).fs.get 0 = some f ∧
+      ((generations (run cfg evs).fs (numGen cfg)).flatten = messages evs ∨
+       (numGen cfg - 1) * (cfg.limit + 1 - cmax) + size cfg f ≤
+         size cfg (generations (run cfg evs).fs (numGen cfg)).flatten) :=
+  C15_retained_size_bound_from cfg hlim _ [] (C15_invariant_fresh cfg hlim).2 evs hadm cmax hc1 hcost
 
 /-! ### non-vacuity: the hypotheses are satisfiable and the model computes what one expects -/
 
@@ -245,5 +636,106 @@ example :
     generations (run cfg evs).fs (numGen cfg) = [[], [[97, 98, 99]], [], [[100, 101, 102, 103]], [[]]] ∧
     (generations (run cfg evs).fs (numGen cfg)).flatten = messages evs := by
   refine ⟨(fun m _ h => by cases h), by decide, by decide⟩
+
+
+/-- `C15_latest_retained`: two entries per file, two files; two messages fill generation 0, the restart finds it
+    full and starts an empty generation 0: the most recent message is the last line of generation 1 and of the
+    generations read oldest → newest -/
+example :
+    let cfg : Cfg := ⟨.counted, 2, 2⟩
+    let evs : List Event := [.write [97], .write [98], .restart]
+    (∀ m ∈ messages evs, Writable cfg m) ∧ 1 ≤ cfg.limit ∧ messages evs ≠ [] ∧ 2 ≤ numGen cfg ∧
+    (run cfg evs).fs.get 0 = some [] ∧ (run cfg evs).fs.get 1 = some [[97], [98]] ∧
+    (generations (run cfg evs).fs (numGen cfg)).flatten.getLast? = some [98] ∧
+    (messages evs).getLast? = some [98] := by
+  refine ⟨?_, by decide, by decide, by decide, by decide, by decide, by decide, by decide⟩
+  intro m hm
+  simp [messages] at hm
+  rcases hm with h | h <;> subst h <;> intro _ <;> decide
+
+/-- `C15_latest_lost_iff`, the exception: the same history with a single file (`max_gen` = 1): the restart
+    truncates the only file, nothing is retained although two messages were written; the next write ends this -/
+example :
+    let cfg : Cfg := ⟨.counted, 2, 1⟩
+    let evs : List Event := [.write [97], .write [98], .restart]
+    (∀ m ∈ messages evs, Writable cfg m) ∧ messages evs ≠ [] ∧ numGen cfg = 1 ∧
+    (run cfg evs).fs.get 0 = some [] ∧
+    (generations (run cfg evs).fs (numGen cfg)).flatten = [] ∧
+    (generations (run cfg (evs ++ [.write [99]])).fs (numGen cfg)).flatten = [[99]] := by
+  refine ⟨?_, by decide, by decide, by decide, by decide, by decide⟩
+  intro m hm
+  simp [messages] at hm
+  rcases hm with h | h <;> subst h <;> intro _ <;> decide
+
+/-- `C15_drop_at_most_oldest`: two entries per file, two files, both full: a fifth message (and just as well a
+    restart) drops exactly the oldest generation `[a, b]`; with three files configured nothing is dropped -/
+example :
+    let cfg : Cfg := ⟨.counted, 2, 2⟩
+    let evs : List Event := [.write [97], .write [98], .write [99], .write [100]]
+    (∀ m ∈ messages evs, Writable cfg m) ∧
+    (run cfg evs).fs.get 0 = some [[99], [100]] ∧
+    ((run cfg evs).fs.get (numGen cfg - 1)).getD [] = [[97], [98]] ∧
+    cfg.limit < size cfg [[99], [100]] + nextCost cfg (messages [.write [101]]) ∧
+    cfg.limit < size cfg [[99], [100]] + nextCost cfg (messages [.restart]) ∧
+    (generations (run cfg evs).fs (numGen cfg)).flatten = [[97], [98]] ++ [[99], [100]] ∧
+    (generations (run cfg (evs ++ [.write [101]])).fs (numGen cfg)).flatten = [[99], [100]] ++ [[101]] ∧
+    (generations (run cfg (evs ++ [.restart])).fs (numGen cfg)).flatten = [[99], [100]] ∧
+    (generations (run ⟨.counted, 2, 3⟩ (evs ++ [.write [101]])).fs 3).flatten =
+      [[97], [98], [99], [100], [101]] := by
+  refine ⟨?_, by decide, by decide, by decide, by decide, by decide, by decide, by decide, by decide⟩
+  intro m hm
+  simp [messages] at hm
+  rcases hm with h | h | h | h <;> subst h <;> intro _ <;> decide
+
+/-- `C15_counted_window`: two entries per file, three files, seven messages and a restart: exactly the last
+    (3-1)*2 + 1 = 5 messages are retained -/
+example :
+    let cfg : Cfg := ⟨.counted, 2, 3⟩
+    let evs : List Event := [.write [97], .write [98], .write [99], .restart, .write [100], .write [101],
+      .write [102], .write [103]]
+    (∀ m ∈ messages evs, Writable cfg m) ∧ cfg.kind = .counted ∧
+    (run cfg evs).fs.get 0 = some [[103]] ∧
+    (generations (run cfg evs).fs (numGen cfg)).flatten = [[99], [100], [101], [102], [103]] ∧
+    (messages evs).drop ((messages evs).length - ((numGen cfg - 1) * cfg.limit + 1)) =
+      [[99], [100], [101], [102], [103]] := by
+  refine ⟨?_, by decide, by decide, by decide, by decide⟩
+  intro m hm
+  simp [messages] at hm
+  rcases hm with h | h | h | h | h | h | h <;> subst h <;> intro _ <;> decide
+
+/-- `C15_retained_size_bound`: 8 bytes per file, two files, messages of at most 3 bytes with the newline:
+    not everything is retained, and the bound (2-1)*(8+1-3) + 3 = 9 bytes is attained -/
+example :
+    let cfg : Cfg := ⟨.maxsize, 8, 2⟩
+    let evs : List Event := [.write [97, 98], .write [99, 100], .write [101], .write [102, 103],
+      .write [104, 105], .write [106, 107]]
+    (∀ m ∈ messages evs, Writable cfg m) ∧ (∀ m ∈ messages evs, cost cfg m ≤ 3) ∧
+    (run cfg evs).fs.get 0 = some [[106, 107]] ∧
+    (generations (run cfg evs).fs (numGen cfg)).flatten ≠ messages evs ∧
+    (numGen cfg - 1) * (cfg.limit + 1 - 3) + size cfg [[106, 107]] = 9 ∧
+    size cfg (generations (run cfg evs).fs (numGen cfg)).flatten = 9 := by
+  refine ⟨(fun m _ h => by cases h), by decide, by decide, by decide, by decide, by decide⟩
+
+/-- the `…_from` theorems: a pre-existing directory that no history on a fresh directory produces with these
+    `msgs` (two entries per file, two files; generation 1 = `[b, c]`, generation 0 = `[a]`, and an older message
+    that is gone) is `DirOk`; constructing the policy on it and going on writing gives what one expects -/
+example :
+    let cfg : Cfg := ⟨.counted, 2, 2⟩
+    let gs : List File := [[[97]], [[98], [99]]]
+    let msgs : List Msg := [[1], [98], [99], [97]]
+    let evs : List Event := [.write [100], .restart, .write [101]]
+    DirOk cfg gs msgs ∧ 1 ≤ cfg.limit ∧ (∀ m ∈ messages evs, Writable cfg m) ∧
+    msgs ++ messages evs ≠ [] ∧
+    generations (start cfg (dirOf gs)).1.fs (numGen cfg) = [[[98], [99]], [[97]]] ∧
+    generations (runFrom (start cfg (dirOf gs)).1 evs).fs (numGen cfg) = [[[97], [100]], [[101]]] := by
+  refine ⟨⟨by decide, by decide, by decide, ?_, by decide, ?_, ?_⟩, by decide, ?_, by decide, by decide, by decide⟩
+  · intro n hn
+    have : n = 0 := by simp at hn; omega
+    subst this; decide
+  · intro h; exact absurd h (by decide)
+  · intro _; decide
+  · intro m hm
+    simp [messages] at hm
+    rcases hm with h | h <;> subst h <;> intro _ <;> decide
 
 end CelmaVerif.Props.C15
